@@ -16,7 +16,7 @@ PROP = dict(
           "enum unit: every string over {\\\\,\\\",a,space} of length <=5 plus ~60 hostile strings x 4 forms (exhaustive). texts unit: random "
           "bytes, token soups, valid expressions and destructive edits (unbalanced parenthesis, unterminated quote/regexp, term without ':' "
           "or value, empty fixed list, unknown order, .unit in projection, .config in filter); non-trivial = a destructive edit. Distinct = "
-          "distinct case JSON."),
+          "distinct case JSON. flags unit: malformed projection/filter expressions given to benchstat's -filter/-table/-row/-col/-ignore must make the entry point return an error."),
     assumptions=["strconv.Quote produces a valid double-quoted Go string literal"],
     units=[
         E("enum", "A", "./c07", "TestC07Enum", 1, 1),
